@@ -24,6 +24,28 @@ Theorem closed_for_idle_only_if_idle : forall tls valet T t0 evs t la,
 Proof. exact only_if_idle_classes. Qed.
 Print Assumptions closed_for_idle_only_if_idle.
 
+(* THE CONFIGURED VALUE REACHES EVERY CONNECTION.  For Valet and Porter, scheme http and https,
+   whatever timeout is configured (None = the front end's class default): the idle threshold
+   (.timeout = timer duration) of every connection accepted by the server the front end built is
+   exactly the configured value -- computed along the EXTRACTED forwarding table
+   Valet/Porter.__init__ -> Server/ServerTls(timeout=...) -> Incomer/IncomerTls(timeout=...) with
+   the extracted class defaults -- and the same Store clock is handed down at every level. *)
+Theorem configured_timeout_reaches_every_connection : forall tls valet configured,
+  conn_timeout (path_of tls valet) configured = configured_timeout valet configured /\
+  forallb (fun b => b) clock_forwarded = true.
+Proof. exact (fun tls valet configured => conj (conn_timeout_configured tls valet configured) clock_is_forwarded). Qed.
+Print Assumptions configured_timeout_reaches_every_connection.
+
+(* hence, end to end: a connection served by a Valet / Porter configured with timeout T (ticks of
+   1/8 s; None = class default) over http or https is closed by the idle check only after at
+   least T without bytes sent or received *)
+Theorem closed_for_idle_only_after_configured_timeout : forall tls valet configured t0 evs t la,
+  0 < configured_timeout valet configured -> 0 <= t0 -> monotone evs = true ->
+  closed_idle (run (served_cfg tls valet configured) t0 evs) = Some (t, la) ->
+  t - la >= configured_timeout valet configured.
+Proof. exact only_if_idle_configured. Qed.
+Print Assumptions closed_for_idle_only_after_configured_timeout.
+
 (* activity always restarts the idle period: after a non-empty receive or a non-zero send the
    timer starts at the current stamp and the full duration lies ahead *)
 Theorem activity_restarts : forall tls valet T s n,
